@@ -23,7 +23,13 @@ def gen_cases(ctx):
 
 
 def run(ctx):
-    if not srv.prepare(ctx):
+    if not srv.prepare(ctx, ['FfiTables.v', 'TlsAuthz.v', 'ReaderLoop.v']):
+        return
+    if ctx.replay and 'authz_sequences' in ctx.replay:
+        srv.replay_authz_sequences(ctx, True)
+        return
+    if ctx.replay and 'stream_cases' in ctx.replay:
+        srv.replay_streams(ctx)
         return
     if ctx.replay and 'cases' in ctx.replay:
         cases = [srv.case_from_json(c) for c in ctx.replay['cases']]
@@ -57,6 +63,30 @@ def run(ctx):
         calls['sessions-with-calls'] += bool(log)
         calls['handler-calls:read-runs'] += sum(1 for e in log if e[:2] in ('rc', 'rd', 'rh', 'ri'))
         calls['handler-calls:write-single'] += sum(1 for e in log if e[:3] in ('wsc', 'wsr'))
+    if not ctx.replay:
+        # C-ABI / Rust TLS servers with authorization: a request the policy denies must not reach a write handler
+        # (client=OK for a write means the write handler ran), a permitted one must; a session whose certificate has
+        # no usable role gets nothing served
+        seqs = srv.gen_authz_sequences(ctx.rng, ctx.quick())
+        out, res = srv.run_authz_sequences(ctx, seqs)
+        badq = [(sq, o, p) for sq, o, per in zip(seqs, out, res) for p in per if not p['ok_effect']]
+        ctx.oblige('tls-authorization:handlers-run-only-for-permitted-requests', not badq, f'{len(badq)} sessions; first: {badq[0][2] if badq else ""}'[:300])
+        for sq, o, p in badq[:2]:
+            ctx.violation(f'handler-calls.tls-authorization.{sq[0]}-server',
+                          f'TLS + authorization, {sq[0]} server, policy {sq[1]}: session #{p["session"]} (role certificate {p["role"]}, {p["op"]}) got `{p["got"]}`: a handler ran for a request that is not permitted (or did not run for a permitted one); required {p["want"]}',
+                          {'authz_sequences': [list(sq[:3]) + [[list(x) for x in sq[3]]]], 'harness_line': 'ffi_authz: ' + srv.authz_line(sq), 'impl': o, 'required': p['want']})
+        calls['tls-authorization-sessions'] = sum(len(s[3]) for s in seqs)
+    if not ctx.replay:
+        r = ctx.rng
+        n = 240 if ctx.quick() else 2400
+        sc = [srv.gen_stream_case(r, 'tcp' if r.random() < 0.65 else 'rtu', auth=(srv.gen_auth(r) if r.random() < 0.2 else None)) for _ in range(n)]
+        srv.stream_pass(ctx, sc, 'calls', 'correspondence:byte-stream-delivery:handler-calls', 'handler-calls.byte-stream')
+        ro = [srv.gen_reopen_case(r) for _ in range(n)]
+        srv.stream_pass(ctx, ro, 'calls', 'correspondence:rtu-port-reopen:handler-calls', 'handler-calls.rtu-reopen', reopen=True)
+        calls['byte-streams'] = n
+        calls['byte-streams:above-260-bytes'] = sum(1 for _, s in sc if sum(len(x) // 2 for x in s if not x.startswith('@')) > 260)
+        calls['rtu-reopen-runs'] = n
+        calls['rtu-reopen-runs:with-crc-error'] = sum(1 for c, s in ro if len([x for x in s if not x.startswith('@')]) > len(c[3]))
     cl = srv.coverage(ctx, cases, impl,
                       'sessions as in C01 (corpus, boundary quantities, mixed structured/malformed sessions), 40% with an authorization handler; '
                       'observable = ordered handler call log; non-trivial = contains at least one valid request; distinct by value', calls)
